@@ -477,6 +477,7 @@ PROPS["C11"] = {
     "health": {"quick": {"op:moveIn": 500, "op:linkIn": 500, "op:createEmpty": 300, "op:removeDir": 500, "op:mkdirMissing": 300, "op:rewriteInChunks": 500,
                          "op:renameInside": 500, "op:renameAway": 500, "last:moveIn": 20, "last:linkIn": 20, "last:remove": 20}},
     "units": [
+        {"name": "regress", "mode": "plain", "run": "TestC11Regress", "race": True},
         {"name": "rapid", "mode": "rapid", "run": "TestC11Rapid", "race": True, "checks": {"quick": 2400, "thorough": 48000}, "timeout": {"quick": 400, "thorough": 3600}},
     ],
 }
